@@ -4,6 +4,7 @@ import (
 	"fmt"
 	"hash/fnv"
 	"io"
+	"os"
 	"runtime"
 	"runtime/debug"
 	"sort"
@@ -356,6 +357,11 @@ func (s *Sim) Violate(class string, attrs map[string]string, format string, args
 	s.Violations = append(s.Violations, v)
 	s.mu.Unlock()
 	s.Log.Addf("VIOLATION %s: %s", v.Key(), v.Detail)
+	if DebugStacks && TraceOut != nil {
+		buf := make([]byte, 1<<20)
+		n := runtime.Stack(buf, true)
+		fmt.Fprintf(TraceOut, "=== goroutines at violation ===\n%s\n", buf[:n])
+	}
 }
 
 func (s *Sim) Failed() bool {
@@ -379,6 +385,9 @@ const maxLogLines = 600
 // TraceOut, if set, receives every log line as it is produced (replay mode:
 // the trace survives a run that kills the process).
 var TraceOut io.Writer
+
+// DebugStacks dumps all goroutine stacks at the first violation (VERIF_DEBUG=1).
+var DebugStacks = os.Getenv("VERIF_DEBUG") == "1"
 
 func (l *Log) Addf(format string, args ...any) {
 	line := fmt.Sprintf("t=%v ", time.Since(l.start)) + fmt.Sprintf(format, args...)
